@@ -19,7 +19,7 @@ statistic (how well the model describes the format); a difference there is not a
 import json as pyjson
 import random, struct
 from vlib import Broken, b_json
-from a1util import b_json_tolerant, run_cases_par, crash_sig, latin1, Phases, tlc_many
+from a1util import b_json_tolerant, run_cases_par, crash_sig, latin1, Phases, tlc_many, load_replay, finish_keeping_evidence
 
 INDENTS = [0, 2, 1, 4, -1]
 
@@ -281,58 +281,73 @@ def run(ctx):
     rng = random.Random(ctx.seed)
     ph = Phases(ctx)
     thorough = ctx.tier == "thorough"
-    # 1. design run + vacuity; the verbatim-key dump must be rejected by the model
-    r = ctx.tlc("mc/MC_JsonText.tla", "mc/JsonText_design_big.cfg" if thorough else "mc/JsonText_design.cfg",
-                workers=(8 if thorough else 4), coverage=True, deadlock=False, timeout=3000)
-    ctx.tlc_must_pass(r, "JsonText design (EscapeKeys = TRUE)")
-    ctx.require_coverage(r, ["SetRoot", "ObjPut", "ArrPush"])
-    rb = ctx.tlc("mc/MC_JsonText.tla", "mc/JsonText_base.cfg", workers=1, deadlock=False, expect_violation=True)
-    if rb.violated != "RoundTrip":
-        raise Broken("JsonText with EscapeKeys=FALSE should violate RoundTrip (model lost its sensitivity): rc=%s violated=%s"
-                     % (rb.rc, rb.violated))
-    ph.mark("tlc-design")
-    # 2. behaviours (the generation runs are small; they run side by side, one worker each)
-    if thorough:
-        gens = [("A_big", None, None), ("B_big", None, None), ("C", None, None), ("Z", None, None), ("sim", 30000, 9)]
+    if ctx.replay:
+        recs = load_replay(ctx.replay)
+        behaviours = [r["spec"]["b"] for r in recs]
+        cases = [r["case"] for r in recs]
+        nums = {k: tuple(v) for k, v in recs[0]["spec"]["nums"].items()}
+        insts = []
+        for r in recs:
+            inst = Inst(rng)
+            inst.m = r["spec"]["sym"]
+            insts.append(inst)
+        rb, per_gen = None, {}
     else:
-        gens = [("A1", None, None), ("A2", None, None), ("B", None, None), ("C", None, None), ("Z", None, None), ("sim", 300, 9)]
-    jobs = []
-    for name, sim, depth in gens:
-        jobs.append((name, dict(spec="mc/MC_JsonText.tla", cfg="mc/JsonText_%s.cfg" % ("gen" + name if sim is None else "sim"),
-                                workers=(1 if not thorough or sim is None else 4), simulate=sim,
-                                depth=(depth + 1 if depth else None), deadlock=False, timeout=3000)))
-    results = tlc_many(ctx, jobs, par=4)
-    behaviours = []
-    per_gen = {}
-    for name, sim, depth in gens:
-        g = results[name]
-        if g.rc != 0 and not g.printed:
-            raise Broken("generation failed (%s): %s" % (name, g.out[-2000:]))
-        bs = b_json_tolerant(g, name)
-        if not bs:
-            raise Broken("no behaviours generated by %s:\n%s" % (name, g.out[-1500:]))
-        per_gen[name] = len(bs)
-        behaviours += bs
-    seen, uniq = set(), []
-    for b in behaviours:
-        key = pyjson.dumps([(s["a"], s["p"], s["key"], s["v"]) for s in b], sort_keys=True)
-        if key not in seen:
-            seen.add(key)
-            uniq.append(b)
-    behaviours = uniq
-    ph.mark("tlc-generate")
-    # 3. instantiate and replay
-    nums = num_table(rng)
-    cases, insts = [], []
-    for b in behaviours:
-        inst = Inst(rng)
-        insts.append(inst)
-        steps = []
-        for s in b:
-            steps.append({"a": s["a"],
-                          "p": [({"key": latin1(inst.bytes(e["key"]))} if e["idx"] < 0 else {"idx": e["idx"]}) for e in s["p"]],
-                          "key": latin1(inst.bytes(s["key"])), "v": concrete(s["v"], inst, nums)})
-        cases.append({"indents": INDENTS, "steps": steps, "final": concrete(b[-1]["doc"], inst, nums)})
+        # 1. design run + vacuity; the verbatim-key dump must be rejected by the model
+        r = ctx.tlc("mc/MC_JsonText.tla", "mc/JsonText_design_big.cfg" if thorough else "mc/JsonText_design.cfg",
+                    workers=(8 if thorough else 4), coverage=True, deadlock=False, timeout=3000)
+        ctx.tlc_must_pass(r, "JsonText design (EscapeKeys = TRUE)")
+        ctx.require_coverage(r, ["SetRoot", "ObjPut", "ArrPush"])
+        rb = ctx.tlc("mc/MC_JsonText.tla", "mc/JsonText_base.cfg", workers=1, deadlock=False, expect_violation=True)
+        if rb.violated != "RoundTrip":
+            raise Broken("JsonText with EscapeKeys=FALSE should violate RoundTrip (model lost its sensitivity): rc=%s violated=%s"
+                         % (rb.rc, rb.violated))
+        ph.mark("tlc-design")
+        # 2. behaviours (the generation runs are small; they run side by side, one worker each)
+        if thorough:
+            gens = [("A_big", None, None), ("B_big", None, None), ("C", None, None), ("Z", None, None), ("sim", 5000, 9)]
+        else:
+            gens = [("A1", None, None), ("A2", None, None), ("B", None, None), ("C", None, None), ("Z", None, None), ("sim", 300, 9)]
+        jobs = []
+        for name, sim, depth in gens:
+            jobs.append((name, dict(spec="mc/MC_JsonText.tla", cfg="mc/JsonText_%s.cfg" % ("gen" + name if sim is None else "sim"),
+                                    workers=1, simulate=sim,
+                                    depth=(depth + 1 if depth else None), deadlock=False, timeout=3000)))
+        results = tlc_many(ctx, jobs, par=4)
+        behaviours = []
+        per_gen = {}
+        for name, sim, depth in gens:
+            g = results[name]
+            if g.rc != 0 and not g.printed:
+                raise Broken("generation failed (%s): %s" % (name, g.out[-2000:]))
+            bs = b_json_tolerant(g, name)
+            if not bs:
+                raise Broken("no behaviours generated by %s:\n%s" % (name, g.out[-1500:]))
+            per_gen[name] = len(bs)
+            behaviours += bs
+        seen, uniq = set(), []
+        for b in behaviours:
+            key = pyjson.dumps([(s["a"], s["p"], s["key"], s["v"]) for s in b], sort_keys=True)
+            if key not in seen:
+                seen.add(key)
+                uniq.append(b)
+        behaviours = uniq
+        ph.mark("tlc-generate")
+        # 3. instantiate and replay
+        nums = num_table(rng)
+        cases, insts = [], []
+        for b in behaviours:
+            inst = Inst(rng)
+            insts.append(inst)
+            steps = []
+            for s in b:
+                steps.append({"a": s["a"],
+                              "p": [({"key": latin1(inst.bytes(e["key"]))} if e["idx"] < 0 else {"idx": e["idx"]}) for e in s["p"]],
+                              "key": latin1(inst.bytes(s["key"])), "v": concrete(s["v"], inst, nums)})
+            cases.append({"indents": INDENTS, "steps": steps, "final": concrete(b[-1]["doc"], inst, nums)})
+
+    def rec(i):
+        return [{"case": cases[i], "spec": {"b": behaviours[i], "sym": insts[i].m, "nums": {k: list(v) for k, v in nums.items()}}}]
     exe, lib = ctx.build_harness("json_replay", ["json_replay.cpp"])
     env = ctx.occa_env(lib)
     env["ASAN_OPTIONS"] += ":quarantine_size_mb=16"
@@ -343,7 +358,7 @@ def run(ctx):
         b = cases[c["beh"]]
         act = b["steps"][c["step"]]["a"] if 0 <= c["step"] < len(b["steps"]) else "?"
         ctx.mismatch(crash_sig(c, act), "sanitizer/crash at step %s (%s) of %s: %s" %
-                     (c["step"], act, b["steps"], "; ".join("%s %s %s" % r for r in c["reports"]) or c["crash"]), [b])
+                     (c["step"], act, b["steps"], "; ".join("%s %s %s" % r for r in c["reports"]) or c["crash"]), rec(c["beh"]))
     for rep in info["soft_reports"]:
         ctx.mismatch("ub:%s@%s:%s" % (rep[0], rep[2] or "?", rep[1].split(":")[0]),
                      "UBSan report while replaying: %s at %s in %s" % rep, None)
@@ -365,34 +380,34 @@ def run(ctx):
             ob = o["obs"][j]
             where = "document %s (history %s)" % (structure(s["doc"], inst, nums), cases[i]["steps"][:j + 1])
             if "err" in ob:
-                ctx.mismatch("build:exception:%s" % s["a"], "exception while building: %s; %s" % (ob["err"], where), [cases[i]])
+                ctx.mismatch("build:exception:%s" % s["a"], "exception while building: %s; %s" % (ob["err"], where), rec(i))
                 break
             want = structure(s["doc"], inst, nums)
             if ob["S"] != want:
                 cls = first_difference(spec_tree(s["doc"], inst, nums), parse_S(ob["S"]))
-                ctx.mismatch("build:%s:[%s]" % (s["a"], cls), "built document reads %s, spec %s; %s" % (ob["S"], want, where), [cases[i]])
+                ctx.mismatch("build:%s:[%s]" % (s["a"], cls), "built document reads %s, spec %s; %s" % (ob["S"], want, where), rec(i))
                 break
             for d in ob["D"]:
                 dumps_checked += 1
                 ind = d["i"]
                 if d["det"] != 1:
-                    ctx.mismatch("dump:not-deterministic", "two dumps of the same value differ; %s" % where, [cases[i]])
+                    ctx.mismatch("dump:not-deterministic", "two dumps of the same value differ; %s" % where, rec(i))
                 if d["p"] != "ok":
                     ctx.mismatch("parse-error:[%s]" % suspects(s["doc"], inst), "json::parse rejects the text dump(%d) produced: %r; %s" %
-                                 (ind, d["t"], where), [cases[i]])
+                                 (ind, d["t"], where), rec(i))
                     continue
                 cls = "same-structure"
                 if d["PS"] != "=":
                     cls = first_difference(spec_tree(s["doc"], inst, nums), parse_S(d["PS"]))
                     ctx.mismatch("roundtrip:[%s]" % cls, "parse(dump(%d)) reads %s, original %s; text %r" %
-                                 (ind, d["PS"], want, d["t"]), [cases[i]])
+                                 (ind, d["PS"], want, d["t"]), rec(i))
                 elif d["eq"] != 1:
                     ctx.mismatch("roundtrip-operator==:[%s]" % suspects(s["doc"], inst), "parse(dump(%d)) != original although the structure is the same; %s" %
-                                 (ind, where), [cases[i]])
+                                 (ind, where), rec(i))
                 if d["PS"] == "=" and d["fix"] != 1:
-                    ctx.mismatch("redump-differs:[%s]" % suspects(s["doc"], inst), "dump(parse(text)) differs from text %r; %s" % (d["t"], where), [cases[i]])
+                    ctx.mismatch("redump-differs:[%s]" % suspects(s["doc"], inst), "dump(parse(text)) differs from text %r; %s" % (d["t"], where), rec(i))
                 if d["PS"] == "=" and d["h"] != 1:
-                    ctx.mismatch("hash-differs:[%s]" % suspects(s["doc"], inst), "hash(parse(dump)) != hash(original); %s" % where, [cases[i]])
+                    ctx.mismatch("hash-differs:[%s]" % suspects(s["doc"], inst), "hash(parse(dump)) != hash(original); %s" % where, rec(i))
                 if ind in (0, 2):
                     st = spec_text(s["txt%d" % ind], inst, numtxt)
                     if st is not None:
@@ -404,11 +419,11 @@ def run(ctx):
             if R is not None:
                 cls = "rebuild"
                 if R["S"] != "=":
-                    ctx.mismatch("rebuild:structure", "the document rebuilt in reverse order reads %s; %s" % (R["S"], cases[i]["final"]), [cases[i]])
+                    ctx.mismatch("rebuild:structure", "the document rebuilt in reverse order reads %s; %s" % (R["S"], cases[i]["final"]), rec(i))
                 elif R["eq"] != 1 or R["t"] != 1 or R["h"] != 1:
                     ctx.mismatch("equal-values-differ:%s" % ("==" if R["eq"] != 1 else "text" if R["t"] != 1 else "hash"),
                                  "a second copy of the same document (reverse insertion order) is not ==/dumps differently/hashes differently: %s; %s"
-                                 % (R, cases[i]["final"]), [cases[i]])
+                                 % (R, cases[i]["final"]), rec(i))
     ph.mark("compare")
     ph.done()
     if text_compared and text_agree != text_compared:
@@ -417,7 +432,7 @@ def run(ctx):
     ctx.samples = [cases[0], cases[len(cases) // 3], cases[-1]]
     ctx.cov.update({"behaviours_replayed": len(outs), "steps_checked": steps_checked, "dumps_checked": dumps_checked,
                     "spec_text_compared": text_compared, "spec_text_identical": text_agree,
-                    "crashes": len(crashes), "model_base_violates": rb.violated,
+                    "crashes": len(crashes), "model_base_violates": rb.violated if rb else "(replay)",
                     "behaviours_by_generator": per_gen, "number_tokens": len(nums)})
     ctx.assumptions += [
         "alphabet: TAB NL QUOTE SLASH BSLASH n u + two opaque bytes per behaviour (LO from 0x23..0x2e, HI from 0x76..0xff, seeded) + NUL in generator Z; strings/keys of length <= 2 exhaustively (generator A), longer ones in simulation",
@@ -427,4 +442,6 @@ def run(ctx):
         "equal values = the same document built twice (different insertion order / API spelling); cross-type numeric equality (1 vs 1L vs 1.0) is not claimed to dump identically",
         "ASan/UBSan active during replay",
     ]
+    if ctx.replay:
+        return finish_keeping_evidence(ctx)
     return ctx.finish(exhaustive=False)
